@@ -88,6 +88,15 @@ func checkC08(r *harness.Run) harness.Coverage {
 			}
 		}
 	}
+	// boundary slices followed by a field, an index or a pipe (fused fast paths must clamp too)
+	for _, big := range bounds {
+		for _, s1 := range small {
+			for _, parts := range [][3]*int64{{s1, nil, big}, {big, s1, nil}, {s1, big, nil}, {s1, nil, nil}, {nil, s1, big}} {
+				t := sliceText(parts, false)
+				exprs = append(exprs, exprFromText("y"+t+".a"), exprFromText("y"+t+"[0]"), exprFromText("y"+t+" | [0]"), exprFromText("y"+t+".a | [0]"))
+			}
+		}
+	}
 	// two different slices in one expression (per-interpreter scratch state must not carry over)
 	forms := []string{"[:]", "[1:]", "[:1]", "[::2]", "[::-1]", "[1:3]", "[-2:]", "[:-1]", "[2::-1]", "[::1]", "[3:1:-1]", "[1::2]"}
 	for _, s1 := range forms {
@@ -103,6 +112,7 @@ func checkC08(r *harness.Run) harness.Coverage {
 		}
 		docs = append(docs, arr, map[string]interface{}{"x": arr})
 	}
+	docs = append(docs, univ.Js(`{"y":[{"a":0},{"a":1},{"a":2}]}`, `{"y":[{"a":[0]},{"a":[1]},{"a":[2]},{"a":[3]},{"a":[4]}]}`)...)
 	docs = append(docs, univ.Js(`[[0,1,2],[3,4],[5]]`, `{"x":[[0,1,2],[3,4],[5]]}`)...)
 	docs = append(docs, univ.Js(`null`, `true`, `3`, `"abcdef"`, `{}`, `{"x":"abc"}`, `{"x":{"a":[1,2]}}`, `{"x":null}`, `{"0":1}`)...)
 	st := conform(r, exprs, docs, conformOpts{})
